@@ -2,7 +2,7 @@
    registry did after every step of a history; these functions replay the history on the model and say
    whether every recorded observable is the same. *)
 From Coq Require Import ZArith NArith List Bool.
-From V Require Import Gen.TimespanGen Model.Timespan Model.Calib.
+From V Require Import Gen.TimespanGen Model.Timespan Model.Calib Model.CalibPath.
 Import ListNotations.
 Open Scope N_scope.
 
@@ -12,6 +12,12 @@ Definition std_init : state :=
           [(0, true); (1, true); (2, false)]
           [0; 1; 2; 3; 4; 5; 6; 7; 8; 9; 10; 11; 12; 13; 14; 15; 16; 17]
           [].
+(* what the lookups of the fixture see besides the calibration table: RUN 2 holds the k=0 datasets, RUN 4 the k=1
+   datasets (dataset id = ty*6 + did*2 + k); CHAINED 5 = [1; 0], 6 = [0; 2] (calibration, then a run),
+   8 = [5; 4; 0] (nested chain, a run in the middle, a collection that the nested chain already gave) *)
+Definition std_runs : list (N * ref) :=
+  flat_map (fun ty => flat_map (fun d => [(2, mkRef (ty * 6 + d * 2) ty d); (4, mkRef (ty * 6 + d * 2 + 1) ty d)]) [0; 1; 2]) [0; 1; 2].
+Definition std_env : penv := mkEnv [(5, [1; 0]); (6, [0; 2]); (8, [5; 4; 0])] std_runs.
 
 Definition err_eqb (a b : err) : bool :=
   match a, b with
@@ -46,7 +52,8 @@ Record obs := mkObs {
   o_out : outcome;
   o_rows : list crow;
   o_find : list (N * N * N * TimespanGen.ts * lookup_result);         (* collection, type, data ID, probe, result *)
-  o_path : list (list N * N * N * TimespanGen.ts * lookup_result)     (* search path, type, data ID, probe, result *)
+  o_path : list (list N * N * N * TimespanGen.ts * lookup_result);    (* search path, type, data ID, probe, result *)
+  o_xpath : list (list N * N * N * TimespanGen.ts * lookup_result)    (* search path with CHAINED / RUN collections, ... *)
 }.
 
 Definition find_ok (s : state) (f : N * N * N * TimespanGen.ts * lookup_result) : bool :=
@@ -54,7 +61,11 @@ Definition find_ok (s : state) (f : N * N * N * TimespanGen.ts * lookup_result) 
 Definition path_ok (s : state) (f : list N * N * N * TimespanGen.ts * lookup_result) : bool :=
   let '(p, ty, d, q, r) := f in res_eqb (lookup_path s p ty d q) r.
 
-(* 0 = agrees; otherwise 10 * (1-based step) + component (1 outcome, 2 rows, 3 find, 4 path) *)
+Definition xpath_ok (s : state) (f : list N * N * N * TimespanGen.ts * lookup_result) : bool :=
+  let '(p, ty, d, q, r) := f in
+  match xlookup 6 std_env s p ty d q with Some r' => res_eqb r' r | None => false end.
+
+(* 0 = agrees; otherwise 10 * (1-based step) + component (1 outcome, 2 rows, 3 find, 4 path, 5 chained/run path) *)
 Fixpoint first_bad (chk : bool) (s : state) (i : N) (l : list (op * obs)) : N :=
   match l with
   | [] => 0
@@ -64,6 +75,7 @@ Fixpoint first_bad (chk : bool) (s : state) (i : N) (l : list (op * obs)) : N :=
     else if negb (rows_same (calibs s') (o_rows ob)) then 10 * i + 2
     else if negb (forallb (find_ok s') (o_find ob)) then 10 * i + 3
     else if negb (forallb (path_ok s') (o_path ob)) then 10 * i + 4
+    else if negb (forallb (xpath_ok s') (o_xpath ob)) then 10 * i + 5
     else first_bad chk s' (N.succ i) rest
   end.
 Definition chk_history (l : list (op * obs)) : bool := first_bad true std_init 1 l =? 0.
